@@ -275,3 +275,8 @@ proof fn hint_clear_after(view: HunkView, rest: Seq<u32>, a: Seq<char>, b: Seq<c
         lemma_flat_above(view, rest, a);
     }
 }
+
+
+// Positive knowledge "the failure to read hunk n was reported to the user (monitor / error return)".
+// Obtainable only from a reporting call; `IndexHunkIter::next` makes none (known finding, C10).
+uninterp spec fn hunk_failure_reported(n: u32) -> bool;
